@@ -79,7 +79,7 @@ PENDING = {}
 def main():
     props = [json.loads(l) for l in open(f"{V}/properties.jsonl")]
     hooks = subprocess.check_output(["git", "-C", "/repo", "log", "--format=%h %s"]).decode().splitlines()
-    hook_commits = [l.split()[0] for l in hooks if l.split(" ", 1)[1].startswith("verif hooks")]
+    hook_commits = [l.split()[0] for l in hooks if l.split(" ", 1)[1].startswith(("verif hooks", "verif_hooks"))]
     checks, na = [], []
     for p in props:
         pid = p["id"]
